@@ -12,6 +12,10 @@ lean/FordModel/Generated/C16.lean.
   and - per way of failing - how the handler that catches it ends: it falls through to the conversion
   with the description reset to an empty container, or `continue`, `break`, `return`, `raise`
 
+  ford/graphs.py, BaseNode.__init__ (round 4): the External* classes that are replaced by `str(obj)` before a graph
+  node is made, and the test that decides whether the node's URL is used as it is or prefixed with
+  `graph_data.parent_dir` - written in the little language of lean/FordModel/ExternalNodeCond.lean
+
 Raises when a construct is not found (counts as 'tie broken')."""
 from __future__ import annotations
 
@@ -124,6 +128,8 @@ def extract(repo: Path) -> dict:
     out["caughtSource"] = [c.__name__ for c in caught_classes]
     out["fetchErrors"] = [(n, any(issubclass(c, k) for k in caught_classes)) for n, c in FETCH_ERRORS.items()]
     out["handlerExits"], out["loopShape"] = _loop_shape(fn, ns)
+    gr = ast.parse((repo / "ford" / "graphs.py").read_text())
+    out["nodeStringified"], out["nodeVerbatim"], out["nodeVerbatimSource"] = _node_url(gr)
     for (n, caught), (n2, ex) in zip(out["fetchErrors"], out["handlerExits"]):
         if n != n2 or caught != (ex != "uncaught"):
             raise LookupError(f"load_external_modules: {n} caught={caught} but handler exit {ex!r}")
@@ -218,11 +224,154 @@ def _loop_shape(fn: ast.FunctionDef, ns: dict):
     return per, shape
 
 
+def _is_self_attr(n, attr: str) -> bool:
+    return isinstance(n, ast.Attribute) and n.attr == attr and isinstance(n.value, ast.Name) and n.value.id == "self"
+
+
+def _node_cond(n) -> tuple:
+    """the test in front of `attribs["URL"] = self.url` as a term of NodeCond: nested tuples
+    ('atom', name[, literal]) | ('const', bool) | ('not', c) | ('and', a, b) | ('or', a, b)"""
+    if isinstance(n, ast.BoolOp):
+        op = "and" if isinstance(n.op, ast.And) else "or"
+        terms = [_node_cond(v) for v in n.values]
+        acc = terms[-1]
+        for t in reversed(terms[:-1]):
+            acc = (op, t, acc)
+        return acc
+    if isinstance(n, ast.UnaryOp) and isinstance(n.op, ast.Not):
+        return ("not", _node_cond(n.operand))
+    if isinstance(n, ast.Constant) and isinstance(n.value, bool):
+        return ("const", n.value)
+    if _is_self_attr(n, "fromstr"):
+        return ("atom", "fromstr")
+    if isinstance(n, ast.Call) and isinstance(n.func, ast.Name) and len(n.args) == 2 and not n.keywords:
+        a0, a1 = n.args
+        if n.func.id == "hasattr" and isinstance(a0, ast.Name) and a0.id == "obj" and isinstance(a1, ast.Constant) \
+                and a1.value == "external_url":
+            return ("atom", "hasExternalUrl")
+        if n.func.id == "isinstance" and isinstance(a0, ast.Name) and a0.id == "obj" and isinstance(a1, ast.Name) \
+                and a1.id == "str":
+            return ("atom", "isStr")
+    if isinstance(n, ast.Attribute) and n.attr == "scheme" and isinstance(n.value, ast.Call) and len(n.value.args) == 1 \
+            and not n.value.keywords and _is_self_attr(n.value.args[0], "url"):
+        f = n.value.func
+        fname = f.id if isinstance(f, ast.Name) else f.attr if isinstance(f, ast.Attribute) else None
+        if fname in ("urlparse", "urlsplit"):
+            return ("atom", "urlHasScheme")
+    if isinstance(n, ast.Call) and isinstance(n.func, ast.Attribute) and n.func.attr == "startswith" \
+            and _is_self_attr(n.func.value, "url") and len(n.args) == 1 and not n.keywords:
+        try:
+            lit = ast.literal_eval(n.args[0])
+        except Exception:
+            lit = None
+        lits = [lit] if isinstance(lit, str) else list(lit) if isinstance(lit, tuple) and lit and \
+            all(isinstance(x, str) for x in lit) else None
+        if lits:
+            acc = ("atom", "urlStartsWith", lits[-1])
+            for x in reversed(lits[:-1]):
+                acc = ("or", ("atom", "urlStartsWith", x), acc)
+            return acc
+    raise LookupError(f"graphs.BaseNode.__init__: the test `{ast.unparse(n)}` in front of the node URL is not modelled")
+
+
+def _node_url(gr: ast.Module):
+    """BaseNode.__init__ of ford/graphs.py:
+
+        if isinstance(obj, (<External classes>)): obj = str(obj)
+        ...
+        shown = getattr(obj, "visible", True)            # possibly narrowed for a Fortran* class
+        if self.url and shown:
+            if <test>: self.attribs["URL"] = self.url
+            else:      self.attribs["URL"] = <graph data>.parent_dir + self.url
+
+    -> (names of the stringified classes, <test> as a NodeCond term, its source text)"""
+    cls = next((n for n in gr.body if isinstance(n, ast.ClassDef) and n.name == "BaseNode"), None)
+    fn = next((n for n in (cls.body if cls else []) if isinstance(n, ast.FunctionDef) and n.name == "__init__"), None)
+    if fn is None:
+        raise LookupError("graphs.BaseNode.__init__ not found")
+    params = [a.arg for a in fn.args.args]
+    if len(params) < 3 or params[1] != "obj":
+        raise LookupError("graphs.BaseNode.__init__: unexpected parameters")
+    gd = params[2]
+    # --- the classes turned into strings
+    strs = []
+    for n in fn.body:
+        if isinstance(n, ast.If) and isinstance(n.test, ast.Call) and isinstance(n.test.func, ast.Name) \
+                and n.test.func.id == "isinstance" and len(n.body) == 1 and not n.orelse \
+                and ast.unparse(n.body[0]) == "obj = str(obj)":
+            t = n.test.args[1]
+            names = t.elts if isinstance(t, ast.Tuple) else [t]
+            if not all(isinstance(x, ast.Name) for x in names):
+                raise LookupError("graphs.BaseNode.__init__: isinstance(obj, ...) with something else than class names")
+            strs.append([x.id for x in names])
+    if len(strs) != 1:
+        raise LookupError("graphs.BaseNode.__init__: expected exactly one `if isinstance(obj, (...)): obj = str(obj)`")
+    stringified = list(dict.fromkeys(strs[0]))
+    # --- `shown`
+    first = True
+    for n in ast.walk(fn):
+        if isinstance(n, ast.Assign) and any(isinstance(t, ast.Name) and t.id == "shown" for t in n.targets):
+            src = ast.unparse(n.value)
+            if first:
+                if src != "getattr(obj, 'visible', True)":
+                    raise LookupError(f"graphs.BaseNode.__init__: shown = {src} is not modelled")
+                first = False
+            elif not src.startswith("shown and "):
+                raise LookupError(f"graphs.BaseNode.__init__: shown = {src} is not modelled")
+    if first:
+        raise LookupError("graphs.BaseNode.__init__: `shown` not found")
+    for n in ast.walk(fn):
+        if isinstance(n, ast.If) and any(isinstance(x, ast.Assign) and any(isinstance(t, ast.Name) and t.id == "shown"
+                                                                           for t in x.targets) for x in n.body):
+            tsrc = ast.unparse(n.test)
+            if not (tsrc.startswith("isinstance(obj, Fortran") or tsrc.startswith("isinstance(obj, (Fortran")) or "External" in tsrc:
+                raise LookupError(f"graphs.BaseNode.__init__: `shown` is narrowed under `{tsrc}` - not modelled")
+    # --- the statement that sets attribs["URL"]
+    def sets_url(x):
+        return isinstance(x, ast.Assign) and len(x.targets) == 1 and ast.unparse(x.targets[0]) == "self.attribs['URL']"
+
+    outer = [n for n in fn.body if isinstance(n, ast.If) and any(sets_url(x) for x in ast.walk(n))]
+    others = [x for n in fn.body if n not in outer for x in ast.walk(n) if sets_url(x)]
+    if len(outer) != 1 or others:
+        raise LookupError("graphs.BaseNode.__init__: expected exactly one `if` statement that sets attribs['URL']")
+    outer = outer[0]
+    if ast.unparse(outer.test) != "self.url and shown" or outer.orelse or len(outer.body) != 1 \
+            or not isinstance(outer.body[0], ast.If):
+        raise LookupError("graphs.BaseNode.__init__: expected `if self.url and shown: if <test>: ... else: ...`")
+    inner = outer.body[0]
+
+    def branch(stmts):
+        if len(stmts) != 1 or not sets_url(stmts[0]):
+            return None
+        v = ast.unparse(stmts[0].value)
+        return {"self.url": "verbatim", f"{gd}.parent_dir + self.url": "prefixed"}.get(v)
+
+    b1, b2 = branch(inner.body), branch(inner.orelse)
+    cond = _node_cond(inner.test)
+    if (b1, b2) == ("prefixed", "verbatim"):
+        cond = ("not", cond)
+    elif (b1, b2) != ("verbatim", "prefixed"):
+        raise LookupError("graphs.BaseNode.__init__: the two branches that set attribs['URL'] are not "
+                          "`self.url` / `<graph data>.parent_dir + self.url`")
+    return stringified, cond, ast.unparse(inner.test)
+
+
+def _lean_cond(c) -> str:
+    if c[0] == "atom":
+        return f"(.atom (.urlStartsWith {_lean_str(c[2])}))" if c[1] == "urlStartsWith" else f"(.atom .{c[1]})"
+    if c[0] == "const":
+        return f"(.const {'true' if c[1] else 'false'})"
+    if c[0] == "not":
+        return f"(.not {_lean_cond(c[1])})"
+    return f"(.{c[0]} {_lean_cond(c[1])} {_lean_cond(c[2])})"
+
+
 def render(t: dict) -> str:
     L = [
         "/- GENERATED by translate/c16.py from ford/external_project.py, ford/sourceform.py,",
         "   ford/fortran_project.py - do not edit -/",
         "import FordModel.Basic.Chars",
+        "import FordModel.ExternalNodeCond",
         "namespace Ford.Ext.Gen",
         "open Ford",
         "/-- `external_project.ATTRIBUTES`, in source order -/",
@@ -256,6 +405,13 @@ def render(t: dict) -> str:
         "def handlerExits : List (Str × Str) := [",
         ",\n".join(f"  ({_lean_str(n)}, {_lean_str(h)}) /- {n}: {h} -/" for n, h in t["handlerExits"]),
         "]",
+        "/-- `graphs.BaseNode.__init__`: the classes whose objects are replaced by `str(obj)` before the node is made -/",
+        "def nodeStringified : List Str := [",
+        ",\n".join(f"  {_lean_str(c)} /- {c} -/" for c in t["nodeStringified"]),
+        "]",
+        "/-- `graphs.BaseNode.__init__`: the node's URL is used as it is when this holds, otherwise it is prefixed with",
+        f"    `graph_data.parent_dir`; in the source: `{t['nodeVerbatimSource']}` -/",
+        f"def nodeVerbatim : NodeCond := {_lean_cond(t['nodeVerbatim'])}",
         "end Ford.Ext.Gen",
         "",
     ]
